@@ -19,3 +19,16 @@ ASSUMPTIONS = ['tier S: one call of one real state-machine function from an arbi
                'target-queue push, +2 reference retain/release and QoS-override slow path are counting stubs']
 LEVEL_TEXT = 'placeholder'
 LEVEL_NOTE = 'placeholder'
+
+# ---------------------------------------------------------------- tier H: bounded histories (case split over operation sequences)
+from hist_spec import HH
+from seqs import seqs
+def _h(tier_q, tier_t):
+    hs = []
+    q_serial = seqs('aswBR', 3, minlen=2); q_conc = seqs('absBR', 3, minlen=2)
+    t_serial = seqs('abswBgR', 4, minlen=4); t_conc = seqs('abswBgR', 4, minlen=4)
+    hs += [HH(x) for x in q_serial] + [HH(x, conc=True) for x in q_conc]
+    hs += [HH(x, chain=True) for x in seqs('asR', 3, minlen=3)]
+    hs += [HH(x, tiers=('thorough',)) for x in t_serial] + [HH(x, conc=True, tiers=('thorough',)) for x in t_conc]
+    return hs
+HARNESSES += _h(None, None)
